@@ -147,6 +147,12 @@ func vfC02Run(t *testing.T, cfg vfC02Cfg, nsteps int, next func(busy bool) strin
 				err := topic.Publish(ctx, []byte(f[1]))
 				logev(fmt.Sprintf("ELocal %v", err == nil))
 				lit = "OLocal " + f[1]
+			case "close":
+				// Topic.Close with a live subscription is refused and must change nothing: the model sees no time pass
+				if err := topic.Close(); err == nil {
+					t.Fatal("Topic.Close succeeded with a live subscription")
+				}
+				lit = "OSleep (0)%Z"
 			case "sleep":
 				var ms int64
 				fmt.Sscanf(f[1], "%d", &ms)
@@ -265,6 +271,9 @@ func TestVF_C02Node(t *testing.T) {
 			case r < 75:
 				cs.kind("local")
 				return fmt.Sprintf("local %d", rng.Intn(nids))
+			case r < 80:
+				cs.kind("refused-close")
+				return "close"
 			default:
 				cs.kind("sleep")
 				if busy {
@@ -289,8 +298,170 @@ func TestVF_C02Node(t *testing.T) {
 		}
 		cs.add(lit, map[string]any{"cfg": fmt.Sprintf("%+v", cfg), "steps": steps}, dupSeen && expired)
 	}
-	cs.flush("real node (floodsub, StrictNoSign, content-based global or per-topic message ID, both seen-cache strategies, one validation worker, small validation queue) fed RPCs with duplicate copies, local publishes of the same IDs, a validator that blocks the worker so that copies pile up between the seen check and markSeen, and sleeps landing around TTL and TTL+sweep interval; " +
+	// batch publishing on a gossipsub node, the batch reused across rounds
+	for c := vfN(40, 400); c > 0; c-- {
+		cfg := vfC02Cfg{LastSeen: rng.Intn(2) == 0, TTL: 120 * time.Second, HasVal: rng.Intn(2) == 0, Verdicts: map[int]ValidationResult{}, Blocks: map[int]bool{}, QCap: 8}
+		for id := 0; id < 12; id++ {
+			switch rng.Intn(8) {
+			case 0:
+				cfg.Verdicts[id] = ValidationReject
+			case 1:
+				cfg.Verdicts[id] = ValidationIgnore
+			}
+		}
+		steps := vfC02BatchRun(t, rng, cfg)
+		cs.add(vfC02Lit(cfg, steps), map[string]any{"cfg": fmt.Sprintf("%+v", cfg), "batch_publishing": true, "steps": steps}, true)
+		cs.kind("batch-history")
+	}
+	cs.flush("real node (floodsub, StrictNoSign, content-based global or per-topic message ID, both seen-cache strategies, one validation worker, small validation queue) fed RPCs with duplicate copies, local publishes of the same IDs, a validator that blocks the worker so that copies pile up between the seen check and markSeen, and sleeps landing around TTL and TTL+sweep interval; plus batch histories on a gossipsub node: a MessageBatch reused for two or three rounds, rounds handed over while the event loop is held and the batch refilled before the loop takes them, ids added twice, rejecting / ignoring validators; " +
 		"non-trivial = at least one duplicate was suppressed and time advanced; distinct = hash of config+script+observations")
+}
+
+// Batch publishing (gossipsub): a MessageBatch reused for several rounds; a round may still sit in the hand-off channel (the
+// event loop is held) while the next messages are added to the same batch. Every id added to a batch that is then published
+// is delivered exactly once; in model terms each AddToBatch + its round's PublishBatch is one local publication.
+func vfC02BatchRun(t *testing.T, rng *rand.Rand, cfg vfC02Cfg) []vfC02Step {
+	var steps []vfC02Step
+	synctest.Test(t, func(t *testing.T) {
+		ctx, cancel := context.WithCancel(context.Background())
+		defer cancel()
+		h := vfHosts(t, 1)[0]
+		var mu sync.Mutex
+		var evs []string
+		logev := func(s string) { mu.Lock(); evs = append(evs, s); mu.Unlock() }
+		idfn := func(m *pb.Message) string { return "id:" + string(m.Data) }
+		strat := timecache.Strategy_FirstSeen
+		if cfg.LastSeen {
+			strat = timecache.Strategy_LastSeen
+		}
+		var holdMu sync.Mutex
+		var holdGate chan struct{}
+		ps, err := NewGossipSub(ctx, h, WithMessageSignaturePolicy(StrictNoSign), WithSeenMessagesTTL(cfg.TTL), WithSeenMessagesStrategy(strat),
+			WithRawTracer(&vfC02Tracer{log: logev}), WithMessageIdFn(idfn))
+		if err != nil {
+			t.Fatal(err)
+		}
+		if cfg.HasVal {
+			err = ps.RegisterTopicValidator("t", func(ctx context.Context, _ peer.ID, m *Message) ValidationResult {
+				var id int
+				fmt.Sscanf(string(m.Data), "%d", &id)
+				logev(fmt.Sprintf("EInvoke %d", id))
+				holdMu.Lock()
+				g := holdGate
+				holdMu.Unlock()
+				if g != nil {
+					<-g
+				}
+				if v, ok := cfg.Verdicts[id]; ok {
+					return v
+				}
+				return ValidationAccept
+			}, WithValidatorInline(true))
+			if err != nil {
+				t.Fatal(err)
+			}
+		}
+		topic, err := ps.Join("t")
+		if err != nil {
+			t.Fatal(err)
+		}
+		sub, err := topic.Subscribe()
+		if err != nil {
+			t.Fatal(err)
+		}
+		go func() {
+			for {
+				m, err := sub.Next(ctx)
+				if err != nil {
+					return
+				}
+				logev("EDeliver " + string(m.Data))
+			}
+		}()
+		time.Sleep(500 * time.Millisecond)
+		steps = append(steps, vfC02Step{Op: "OSleep (500000000)%Z"})
+		var batch MessageBatch
+		var order []int
+		results := map[int][]bool{}
+		next := 0
+		add := func() {
+			id := next
+			if len(order) > 0 && rng.Intn(6) == 0 {
+				id = order[rng.Intn(len(order))] // an id that was added before: not added again
+			} else {
+				next++
+			}
+			err := topic.AddToBatch(ctx, &batch, []byte(fmt.Sprint(id)))
+			order = append(order, id)
+			results[id] = append(results[id], err == nil)
+		}
+		rounds := 2 + rng.Intn(2)
+		for r := 0; r < rounds; r++ {
+			for k := 1 + rng.Intn(3); k > 0; k-- {
+				add()
+			}
+			if cfg.HasVal && rng.Intn(3) != 0 {
+				// one more AddToBatch is parked inside its validator; the round is handed over while the event loop is busy; the
+				// parked call then completes (the batch is refilled) before the loop gets to the round
+				holdMu.Lock()
+				holdGate = make(chan struct{})
+				hg := holdGate
+				holdMu.Unlock()
+				added := make(chan struct{})
+				go func() { add(); close(added) }()
+				synctest.Wait()
+				gate := make(chan struct{})
+				done := make(chan struct{})
+				go func() { vfEval(ps, func() { <-gate }); close(done) }()
+				synctest.Wait()
+				if err := ps.PublishBatch(&batch); err != nil {
+					t.Fatal(err)
+				}
+				holdMu.Lock()
+				holdGate = nil
+				holdMu.Unlock()
+				close(hg)
+				<-added
+				close(gate)
+				<-done
+			} else if err := ps.PublishBatch(&batch); err != nil {
+				t.Fatal(err)
+			}
+			synctest.Wait()
+		}
+		if err := ps.PublishBatch(&batch); err != nil {
+			t.Fatal(err)
+		}
+		synctest.Wait()
+		vfEval(ps, func() {})
+		synctest.Wait()
+		mu.Lock()
+		got := evs
+		mu.Unlock()
+		// one model step per AddToBatch, in call order, with everything observed for that id at its first occurrence
+		seen := map[int]bool{}
+		occ := map[int]int{}
+		for _, id := range order {
+			var mine []string
+			if !seen[id] {
+				seen[id] = true
+				for _, e := range got {
+					var x int
+					var k string
+					if n, _ := fmt.Sscanf(e, "%s %d", &k, &x); n == 2 && x == id {
+						mine = append(mine, e)
+					}
+				}
+			}
+			mine = append(mine, fmt.Sprintf("ELocal %v", results[id][occ[id]]))
+			occ[id]++
+			sort.Strings(mine)
+			steps = append(steps, vfC02Step{Op: fmt.Sprintf("OLocal %d", id), Evs: mine})
+		}
+		cancel()
+		synctest.Wait()
+	})
+	return steps
 }
 
 var _ = rand.Int
